@@ -1,17 +1,19 @@
 package c08
 
-import "strings"
-
 // Known genuine defects of webrender met while calibrating C08 (see notes/C08.md and
 // findings/C08/*.json).  The feature combination that triggers each of them is kept out of the
-// random workload here — and only here — so that the check is silent on the unchanged tree without
-// weakening any oracle.  When a defect is repaired, delete its entry: the workload then covers it.
+// random workload here — and only here (plus the on("<id>") tests in vars.go) — so that the check
+// is silent on the unchanged tree without weakening any oracle.  When a defect is repaired, delete
+// its entry: the workload then covers it.
+//
+// Still open: grid-area-order, var-url-base, var-undefined-empty, var-cycle-semantics.
+// Everything else that was listed here has been repaired in /repo and is back in the workload.
 
 // discovery switches off every exclusion (development: `C08_DISCOVER=1 vw -scan`), to list what the
 // full workload trips over.
 var discovery = false
 
-// discoverIDs: exclusions switched off individually (C08_DISCOVER=unit-case,display-case …)
+// discoverIDs: exclusions switched off individually (C08_DISCOVER=grid-area-order,var-url-base …)
 var discoverIDs = map[string]bool{}
 
 // on reports whether the exclusion of defect id is active.
@@ -19,18 +21,6 @@ func on(id string) bool { return !discovery && !discoverIDs[id] }
 
 // excludedValue reports whether value v of property name must not be generated.
 func excludedValue(name string, v val) bool {
-	switch name {
-	case "list-style-image", "list-style":
-		// F-C08-list-style-image-quoted-url: url("x") / url('x') (a function token holding a string) is
-		// rejected by validation.listStyleImage; only the unquoted url token is accepted.
-		if on("list-style-image-quoted-url") {
-			for _, p := range v {
-				if p.T == "url(" || strings.HasPrefix(p.T, "url('") {
-					return true
-				}
-			}
-		}
-	}
 	switch name {
 	case "grid-area":
 		// F-C08-grid-area-order: grid-area: a / b / c / d is expanded to row-start a, row-end b,
@@ -42,148 +32,17 @@ func excludedValue(name string, v val) bool {
 				}
 			}
 		}
-	case "grid":
-		// F-C08-grid-autoflow-empty-tracks: grid: auto-flow / <columns> (no <grid-auto-rows>) sets
-		// grid-auto-rows to an empty list instead of auto.
-		if on("grid-autoflow-empty-tracks") {
-			seg, segHasFlow, segOnlyKw := 0, false, true
-			_ = seg
-			flush := func() bool { return segHasFlow && segOnlyKw }
-			for _, p := range v {
-				if p.T == "/" && p.K == kPunct {
-					if flush() {
-						return true
-					}
-					segHasFlow, segOnlyKw = false, true
-					continue
-				}
-				if p.K == kKeyword && p.T == "auto-flow" {
-					segHasFlow = true
-				} else if !(p.K == kKeyword && p.T == "dense") {
-					segOnlyKw = false
-				}
-			}
-			if flush() {
-				return true
-			}
-		}
 	}
 	return false
 }
 
-// markNoCase forbids ASCII-case changes on the pieces of v whose case webrender is known to
-// mishandle.
-func markNoCase(name string, v val) val {
-	out := v
-	cloned := false
-	set := func(i int) {
-		if !cloned {
-			out, cloned = v.clone(), true
-		}
-		out[i].NoCase = true
-	}
-	setWS := func(i int, ws byte) {
-		if !cloned {
-			out, cloned = v.clone(), true
-		}
-		if out[i].WS < ws {
-			out[i].WS = ws
-		}
-	}
-	for i, p := range v {
-		switch {
-		case (insideFunc(v, i, "[") || p.T == "]") && on("line-names-comment"):
-			// F-C08-line-names-comment: a comment inside [line names] makes the grid track list invalid.
-			setWS(i, 1)
-		case (insideFunc(v, i, "running(") || p.K == kClose && closes(v, i, "running(")) && on("running-ws"):
-			// F-C08-running-ws: position: running( x ) is rejected when the parentheses hold white space.
-			setWS(i, 2)
-		case (insideFunc(v, i, "url(") || p.K == kClose && closes(v, i, "url(")) && on("url-function-ws"):
-			// F-C08-url-function-ws: url( "x" ) with white space inside resolves to another URL.
-			setWS(i, 2)
-		}
-		switch {
-		case p.K == kKeyword && name == "display" && on("display-case"):
-			// F-C08-display-case: validation.display compares the raw identifier for block, inline,
-			// flow, flow-root, table, flex, grid, list-item.
-			set(i)
-		case p.K == kKeyword && fontVariantCaseSensitive[p.T] && on("font-variant-case"):
-			// F-C08-font-variant-case: validation.parseFontVariant looks the raw identifier up
-			// (font-variant-ligatures / -numeric / -east-asian and the font-variant shorthand).
-			set(i)
-		case p.K == kFunc && rawNameFunctions[p.T] && on("function-name-case"):
-			// F-C08-function-name-case: getString / getUrl / position / listStyleType_ compare
-			// token.Name without lower-casing: ATTR( COUNTER( COUNTERS( CONTENT( STRING( URL( RUNNING( SYMBOLS(.
-			set(i)
-		case p.K == kKeyword && insideFunc(v, i, "leader(") && on("leader-keyword-case"):
-			// F-C08-leader-keyword-case: leader(dotted|solid|space) compares the raw identifier.
-			set(i)
-		case p.K == kKeyword && insideFunc(v, i, "symbols(") && on("symbols-type-case"):
-			// F-C08-symbols-type-case: symbols(cyclic|numeric|…) compares the raw identifier.
-			set(i)
-		case p.K == kKeyword && isCounterStyleName[p.T] && counterStyleContext(name, v, i) && on("counter-style-name-case"):
-			// F-C08-counter-style-name-case: predefined counter style names (and none) are kept as
-			// written instead of being ASCII lower-cased (Counter Styles 3 §3): LOWER-ALPHA is unknown.
-			set(i)
-		case p.K == kKeyword && (p.T == "on" || p.T == "off") && name == "font-feature-settings" && on("feature-onoff-case"):
-			// F-C08-feature-onoff-case: font-feature-settings compares the raw identifier with "on".
-			set(i)
-		case p.K == kUnit && caseSensitiveUnits[p.T] && on("unit-case"):
-			// F-C08-unit-case: resolution units (RESOLUTIONTODPPX) and "fr" are still looked up
-			// case-sensitively: `96DPI`, `1FR` are rejected (length and angle units were repaired in accd666).
-			set(i)
-		}
-	}
-	return out
-}
+// applyMarks sets the per-piece restrictions (no case change / no white space) that known defects
+// require.  None is needed at present; the hook is kept because values are re-marked after splicing.
+func markNoCase(name string, v val) val { return v }
 
 // excludedReset reports whether longhand long must be left out of what shorthand short is expected
-// to reset.
-func excludedReset(short, long string) bool {
-	if short == "border" && strings.HasPrefix(long, "border-image-") && on("border-resets-border-image") {
-		// F-C08-border-resets-border-image: the border shorthand does not reset border-image-*
-		// (Backgrounds 3 §4.4: "the border shorthand also resets border-image to its initial value").
-		return true
-	}
-	if short == "font" && on("font-resets") {
-		// F-C08-font-resets: the font shorthand does not reset font-variant-* (other than caps),
-		// font-kerning, font-feature-settings, font-language-override, font-variation-settings.
-		for _, n := range fontResets {
-			if n == long {
-				return true
-			}
-		}
-	}
-	return false
-}
-
-// properties whose validator accepts every value (F-C08-invalid-accepted)
-var acceptsAnything = map[string]bool{"bleed-top": true, "bleed-right": true, "bleed-bottom": true, "bleed-left": true, "bleed": true,
-	"tab-size": true, "transform-origin": true}
-
-var caseSensitiveUnits = map[string]bool{"dppx": true, "dpi": true, "dpcm": true, "fr": true}
-
-var acceptsPartialJunk = map[string]bool{"font-feature-settings": true}
-
-var fontVariantCaseSensitive = map[string]bool{}
-var isCounterStyleName = map[string]bool{}
-var rawNameFunctions = map[string]bool{"attr(": true, "counter(": true, "counters(": true, "content(": true, "string(": true, "url(": true, "running(": true, "symbols(": true}
-
-func init() {
-	for _, gs := range [][][]string{ligGroups, numGroups, eaGroups} {
-		for _, g := range gs {
-			for _, k := range g {
-				fontVariantCaseSensitive[k] = true
-			}
-		}
-	}
-	for _, n := range counterStyleNames {
-		isCounterStyleName[n] = true
-	}
-	for _, n := range []string{"lower-roman", "upper-alpha"} {
-		isCounterStyleName[n] = true
-	}
-}
+// to reset.  No exclusion at present.
+func excludedReset(short, long string) bool { return false }
 
 // insideFunc reports whether piece i lies directly inside the function whose opening piece is fn.
 func insideFunc(v val, i int, fn string) bool {
@@ -199,36 +58,6 @@ func insideFunc(v val, i int, fn string) bool {
 		}
 	}
 	return len(stack) > 0 && stack[len(stack)-1] == fn
-}
-
-// closes reports whether the closing piece i closes the function fn.
-func closes(v val, i int, fn string) bool {
-	var stack []string
-	for k := 0; k < i; k++ {
-		switch {
-		case v[k].K == kFunc || v[k].T == "[":
-			stack = append(stack, v[k].T)
-		case v[k].K == kClose || v[k].T == "]":
-			if len(stack) > 0 {
-				stack = stack[:len(stack)-1]
-			}
-		}
-	}
-	return len(stack) > 0 && stack[len(stack)-1] == fn
-}
-
-// counterStyleContext: piece i is used as a counter style (list-style-type, the list-style
-// shorthand, or the style argument of counter() / counters() / target-counter(s)()).
-func counterStyleContext(name string, v val, i int) bool {
-	if name == "list-style-type" || name == "list-style" {
-		return true
-	}
-	for _, f := range []string{"counter(", "counters(", "target-counter(", "target-counters("} {
-		if insideFunc(v, i, f) {
-			return true
-		}
-	}
-	return false
 }
 
 // switches of the var() workload
